@@ -155,6 +155,7 @@ let parse_file (path : string) : Trace.tev list * stats =
         | ["CONNEV"; c; "token"; tok; _] -> push (Trace.TConnToken (conn_of c, tok_of tok))
         | ["TOKTASK"; c; tok; tid] -> push (Trace.TTokenTask (conn_of c, tok_of tok, tid_of tid))
         | ["SITE"; "reaccess.deferred"; c; r] when S.length c > 1 && S.get c 0 = 'c' -> st.sites <- "reaccess.deferred" :: st.sites; push (Trace.TReaccessDeferred (conn_of c, rid_of r))
+        | ["LEGACY"; c] -> push (Trace.TLegacy (conn_of c))
         | ["THROTTLE"; n] -> push (Trace.TThrottle (nat_of_int (int_of_string n)))
         | ["SYSEV"; "tokenreset"; tids] -> push (Trace.TTokenResetEv (L.map tid_of (L.filter (fun x -> x <> "") (S.split_on_char ',' tids))))
         | ["SYSEV"; "reset"; which; pats] ->
